@@ -11,7 +11,21 @@ TECH = {
  "C03": "constant tables, congruence+interval check of field helpers, case-split dominance, abstract domain of point multiples",
  "C04": "term equality of txid/wtxid per mode, field coverage, ownership (no content search), remainder threading",
  "C05": "guard-partition decision tables (CompactSize), layout/tiling term equality, remainder threading, witness framing",
+ "C06": "constant tables, term equality with the BIP173/350 reference, exact accept-region decision tables of the decoder (dominating facts), per-group-count evaluation of the 5-to-8 bit regrouping",
+ "C07": "alphabet table + inverse, term equality of the divmod folds, constant evaluation on zero-valued inputs, checksum comparison dominating the payload return",
+ "C08": "decision table of scriptpubkey over address classes (all 256 version bytes, witness versions/lengths), table agreement encoder<->decoder, template term equality",
+ "C09": "term equality with BIP32 per index region, polynomial normal form mod n, dominating range facts, exact interval set of accepted CKDpub indices, layout/type table of the 78-byte serialisation",
+ "C10": "exact accept regions over entropy lengths / word counts, per-length term equality of checksum and 11-bit grouping, dominance of the checksum comparison, word-list table",
  "C11": "decision table (6 flags x 2 regions) x term equality with the BIP143 preimage",
+ "C12": "per-mode term equality with BIP340 sign/verify, interval sets of accepted scalars, dominating facts on the verify success exit, def-use provenance of the nonce",
+ "C13": "guard-partition of push lengths (shortest-push decision table), per-first-byte evaluation of the script reader with tiling slices, opcode tables vs consensus list, template builders",
+ "C14": "decision table (length x prefix byte) of the SEC1 decoder with dominating on-curve fact, WIF version-byte tables (24 pairs) encoder<->decoder, PEM/DER layout term equality",
+ "C15": "abstract evaluation of merkle_root per list length vs the specification tree, BIP34 height regions, subsidy schedule regions, header layout and proof-of-work comparison terms",
+ "C16": "per-sender-kind summaries of send_tx: ring equality of value conservation, loop path counts (one input per selected output), def-use provenance of outpoints/sighash inputs, type rule on float->satoshi conversions",
+ "C17": "typestate/dominance on the receive loops (exact request sizes, termination on empty chunk), dominance of length/checksum/magic on the success return, layout tiling of message codecs",
+ "C18": "thread-reachability over resolved callees, ownership/atomicity rules on shared Node state, CFG path counting (exactly one handle-or-enqueue per received message), canary fixture",
+ "C19": "ownership rule (append-only open modes, no seek/truncate), CFG path counting of writes per block, dominance of the size test, roll-over name term equality, canary fixture",
+ "C20": "structural model of the argparse declarations (every parser x Config key uses ExplicitOption), layering order in main(), load_config decision table over file presence, per-length evaluation of the hex/bin conversions",
 }
 checks = []
 for p in props:
